@@ -241,8 +241,65 @@ fn run_quorum<S: QuorumSamplingStrategy>(
     evals
 }
 
+/// Every outcome of a single draw of `StakeWeightedSampler` (the sampler underneath all random
+/// phases), for every small weight vector with zeros anywhere: the random word is scripted so that
+/// each of the `total` units is hit once. A zero-weight validator must never be returned, and each
+/// validator must own exactly `weight` of the units (when the unit mapping could be calibrated).
+fn single_draw_exactness(report: &Report, tier: Tier) -> (usize, bool) {
+    let draw = |weights: &[u64], unit: u64, total: u64| -> Result<usize, String> {
+        // a word in the middle of the interval that a multiply-shift reduction (on 64 or on the
+        // upper 32 bits) maps to `unit`
+        let x = ((((unit as u128) * 2 + 1) << 63) / total as u128) as u64;
+        let w = weights.to_vec();
+        catch(move || {
+            let sampler = StakeWeightedSampler::new(make_epoch_light(&w));
+            let mut rng = ScriptRng::new(3, vec![(0, x), (1, x), (2, x)]);
+            sampler.sample(&mut rng).as_usize()
+        })
+    };
+    // calibration: with unit weights, unit u must select validator u
+    let calibrated = (0..5u64).all(|u| draw(&[1, 1, 1, 1, 1], u, 5) == Ok(u as usize)) && (0..6u64).all(|u| draw(&[2, 1, 3], u, 6) == Ok([0, 0, 1, 2, 2, 2][u as usize]));
+    let maxw = tier.pick(2u64, 3);
+    let mut cases = 0;
+    for n in 2..=tier.pick(4usize, 5) {
+        for code in 0..(maxw + 1).pow(n as u32) {
+            let weights: Vec<u64> = (0..n).map(|i| code / (maxw + 1).pow(i as u32) % (maxw + 1)).collect();
+            let total: u64 = weights.iter().sum();
+            if total == 0 {
+                continue;
+            }
+            let mut owned = vec![0u64; n];
+            for unit in 0..total {
+                cases += 1;
+                let replay = json!({"sampler": "StakeWeightedSampler", "weights": weights, "unit_drawn": unit, "of": total});
+                match draw(&weights, unit, total) {
+                    Err(p) => report.violation(format!("C17:single-draw-panics:{}", cause_of(&p)), p, replay),
+                    Ok(i) if i >= n || weights[i] == 0 => {
+                        report.violation(
+                            "C17:zero-weight-validator-drawn".to_string(),
+                            format!("weights {weights:?}: the draw that lands on unit {unit} of {total} returns validator {i}, whose weight is 0"),
+                            replay,
+                        );
+                    }
+                    Ok(i) => owned[i] += 1,
+                }
+            }
+            if calibrated && owned != weights {
+                report.violation(
+                    "C17:draw-not-proportional-to-weight".to_string(),
+                    format!("weights {weights:?}: over one draw per unit the validators are returned {owned:?} times"),
+                    json!({"sampler": "StakeWeightedSampler", "weights": weights}),
+                );
+            }
+        }
+    }
+    (cases, calibrated)
+}
+
 pub fn run(tier: Tier) -> i32 {
     let report = Report::new("C17", tier, "exploration");
+    let (single_draws, calibrated) = single_draw_exactness(&report, tier);
+    println!("  single-draw exactness: {single_draws} scripted draws, unit mapping calibrated = {calibrated}");
     let scripts = scripts(tier);
     let mut ns: Vec<usize> = (1..=16).collect();
     ns.extend(tier.pick(vec![31, 32, 33, 64, 65, 100, 1000], (17..=24).chain([31, 32, 33, 48, 49, 50, 63, 64, 65, 66, 100, 127, 128, 129, 1000, 2000]).collect()));
